@@ -287,11 +287,11 @@ def plan_C20(tier):
     for fam in futs:
         for cont, n in (("tuple", 12), ("array", 23), ("vec", 65)) + ((("vec", 129), ("array", 65)) if tier != "quick" else ()):
             for pos in (0, n // 2, n - 1):
-                items += fut(fam, cont, n, nv=1 << pos, p=1, sp=1, st=1, dev=2)
+                items += fut(fam, cont, n, nvp=pos, p=1, sp=1, st=1, dev=2)
     for fam in strs:
         for cont, n in (("tuple", 12), ("array", 23), ("vec", 65)):
             for pos in (0, n // 2, n - 1):
-                items += strm(fam, cont, n, nv=1 << pos, p=1, i=1, sp=1, st=1, dev=2)
+                items += strm(fam, cont, n, nvp=pos, p=1, i=1, sp=1, st=1, dev=2)
     # groups: members inserted at any time, never-members at every ordinal
     for fam in ("fgroup", "sgroup"):
         for nv in (1, 2, 4, 3, 5):
@@ -368,7 +368,8 @@ def plan_C06(tier):
     items += wide("fut", ["race"], tier)
     for n in range(5, 13):
         items += fut("race", "tuple", n, p=1, st=1, sp=1, dev=2 if tier == "quick" else 3)
-    return {"items": items, "bounds": "tuples 1..12, arrays {1,2,3,4,8,23,65}, Vecs {1..4,22..200}, FutureExt::race; all answers / wake schedules for N<=4; winner compared with logged poll order"}
+    items += never_items("fut", "race", tier)
+    return {"items": items, "bounds": "tuples 1..12, arrays {1,2,3,4,8,23,65}, Vecs {1..4,22..200}, FutureExt::race; never-completing siblings at every position for N<=3; all answers / wake schedules for N<=4; winner compared with logged poll order"}
 
 
 def plan_C07(tier):
@@ -382,7 +383,8 @@ def plan_C07(tier):
     items += wide("fut", ["race_ok"], tier)
     for n in range(5, 13):
         items += fut("race_ok", "tuple", n, p=1, st=1, sp=1, dev=2 if tier == "quick" else 3)
-    return {"items": items, "bounds": "every Ok/Err assignment for N<=4, all failure orders; arrays/Vecs from 0, tuples 1..12; wide at d<=2"}
+    items += never_items("fut", "race_ok", tier)
+    return {"items": items, "bounds": "every Ok/Err assignment for N<=4, all failure orders; never-completing siblings at every position for N<=3; arrays/Vecs from 0, tuples 1..12; wide at d<=2"}
 
 
 def str_family(fam, tier, zero_ok, i_small):
@@ -408,8 +410,26 @@ def str_family(fam, tier, zero_ok, i_small):
     return items
 
 
+def never_items(kind, fam, tier):
+    """a child that stays Pending forever must not hold back what the others can deliver"""
+    mk = fut if kind == "fut" else strm
+    conts = FUT_CONT[fam] if kind == "fut" else STR_CONT[fam]
+    out = []
+    for cont in conts:
+        for n in (2, 3):
+            for k in (1, 2):
+                if k >= n:
+                    continue
+                for nv in masks(n, k):
+                    kw = dict(nv=nv, p=1, sp=1, st=1 if (n == 2 or tier != "quick") else 0)
+                    if kind == "str":
+                        kw["i"] = 2 if n == 2 else 1
+                    out += mk(fam, cont, n, **kw)
+    return out
+
+
 def plan_C08(tier):
-    return {"items": str_family("merge", tier, True, 2), "bounds": "tuples 0..12, arrays {0..4,8,23,65}, Vecs {0..4,22..200}, StreamExt::merge; per-input scripts over item / Pending / self-wake / early end with I<=2 (3 thorough), unequal lengths, all wake schedules for N<=3"}
+    return {"items": str_family("merge", tier, True, 2) + never_items("str", "merge", tier), "bounds": "tuples 0..12, arrays {0..4,8,23,65}, Vecs {0..4,22..200}, StreamExt::merge; per-input scripts over item / Pending / self-wake / early end with I<=2 (3 thorough), unequal lengths, all wake schedules for N<=3"}
 
 
 def plan_C09(tier):
@@ -427,6 +447,8 @@ def plan_C11(tier):
         items += grp("fgroup", keyed=keyed, init=0, mm=3, ops=4 if quick else 5, p=1)
         items += grp("fgroup", keyed=keyed, init=0, mm=4, ops=6, p=1, st=1, sp=1, rs=1, ext=1, dev=4 if quick else 5)
     items += grp("fgroup", cap=2, init=2, mm=4, ops=3, rs=1, p=1, sp=1, dev=5 if quick else 7)
+    for nv in (1, 2, 5):
+        items += grp("fgroup", keyed=1, nv=nv, init=2, mm=4, ops=3, p=1, st=1, sp=1, dev=4 if quick else 5)
     if not quick:
         items += grp("fgroup", init=1, mm=4, ops=4, p=1, st=1, sp=1, dr=1, dev=6)
         items += grp("fgroup", keyed=1, init=0, mm=4, ops=8, p=1, ext=1, rs=1, dev=6)
@@ -444,6 +466,8 @@ def plan_C12(tier):
     items += grp("sgroup", cap=2, init=2, mm=4, ops=3, rs=1, p=1, i=1, sp=1, dev=5 if quick else 6)
     items += grp("sgroup", init=3, mm=3, ops=1, p=1, i=2, st=1, dev=5 if quick else 7)
     items += grp("sgroup", init=3, mm=3, ops=0, p=0, i=2)
+    for nv in (1, 2, 5):
+        items += grp("sgroup", keyed=1, nv=nv, init=2, mm=4, ops=3, p=1, i=2, st=1, sp=1, dev=4 if quick else 5)
     if not quick:
         items += grp("sgroup", init=2, mm=4, ops=3, p=1, i=2, st=1, sp=1, dr=1, dev=6)
     return {"items": items, "bounds": "as C11 for StreamGroup: member scripts with I<=2 items, P<=1; several members ending in the same poll; growth while members pend"}
@@ -539,6 +563,13 @@ def plan_C17(tier):
             for pos in sorted({0, 1, n // 2, n - 1}):
                 items += strm("merge", cont, n, al=1 << pos, p=1, i=1, mi=3 * n, sp=1, st=1, dev=2 if tier == "quick" else 3)
             items += strm("merge", cont, n, al=(1 << n) - 1, p=0, i=1, mi=3 * n, sp=1, dev=2)
+    # Vecs across the 64-bit block boundary of the readiness bits: everything always ready (every window of N
+    # yields must contain every input), and a single always-ready input beyond position 63
+    for n in (65, 66) + ((129,) if tier != "quick" else ()):
+        items += strm("merge", "vec", n, A2, alp=".".join(str(i) for i in range(n)), p=0, i=1, mi=2 * n, sp=1, dev=1)
+        for pos in sorted({0, 63, 64, n - 1}):
+            items += strm("merge", "vec", n, A2, alp=pos, p=1, i=1, mi=n + 2, dev=1)
+    items += strm("merge", "array", 65, alp=".".join(str(i) for i in range(65)), p=0, i=1, mi=130, sp=1, dev=1)
     return {"items": items, "bounds": "always-ready input at every position of N<=3 (4 thorough) inputs, others over item/Pending/end scripts with all wake schedules, horizon 3N yields, spurious polls; tuples/arrays/Vecs 5..12 at d<=2 (3 thorough)"}
 
 
